@@ -12,7 +12,8 @@ CHECKS = {
                  "rational minimum-norm oracle (norm, subset hull membership, weights); quick adds the lattice under "
                  "4 scalings (1e-2, 1e-4, needle 1:1e-5:1e-5, anisotropic 1:1e-3:1e-6; k<=3 complete, k=4 slice), thorough "
                  "adds {-2..2} for k<=3 and 10 scalings complete (6.9e5 states). A finite case space enumerated completely is "
-                 "the strongest statement this family can make."),
+                 "the strongest statement this family can make."
+                 " Family big70 / big70u1 / big70u2: lattice points scaled by (70, 0.707, 0.707) and perturbed by 0-2 ulp per coordinate (configurations that are degenerate only up to rounding, as GJK meets them for size-100 shapes)."),
         "design_ref": "DESIGN.md 5 C18",
         "note": "Trusted: CPython fractions, numpy; bounded to the stated lattices (nothing is claimed for off-lattice inputs).",
         "technique": "explicit-state exhaustive enumeration of the input lattice on the real code vs exact rational reference model",
@@ -22,7 +23,8 @@ CHECKS = {
                  "x offsets x Margin x 30 directions x 3 norms is executed on the real support mappings and compared with "
                  "closed-form support values and exact point-to-set distances of an independent reference model; for "
                  "MeshGraph the hidden state (cached start vertex) is explored by BFS to closure x every direction, plus all "
-                 "query sequences of length 3."),
+                 "query sequences of length 3."
+                 " MeshGraph adjacency: all 1296 orderings of the triangle list of two tetrahedra (user meshes are not consistently wound) x 4 cache states x 30 directions; meshes with an unreferenced vertex 0, raw qhull winding and a corner tetrahedron are in the alphabet."),
         "design_ref": "DESIGN.md 5 C03",
         "note": "Trusted: reference closed forms in mc/refmodel/shapes.py, scipy ConvexHull for hull facets; nothing is claimed off the lattice.",
         "technique": "bounded-exhaustive input-lattice enumeration + explicit-state BFS over mesh cache state on the real code vs reference model",
@@ -51,7 +53,8 @@ CHECKS = {
                  "modes none/sort/shuffle with EVERY permutation through an RNG seam, with/without payload) and of <= 3 operations "
                  "over a reduced alphabet; canonical-state de-duplication; in every state structural invariants, 14 box queries and "
                  "tree-vs-tree queries against 6 reference trees (incl. the empty tree, both directions) are compared with a "
-                 "list-of-boxes model; the reduced search is repeated under NUMBA_BOUNDSCHECK=1 and interpreted."),
+                 "list-of-boxes model; the reduced search is repeated under NUMBA_BOUNDSCHECK=1 and interpreted."
+                 " Reference trees of the tree-vs-tree queries include small clusters inside the explored boxes; a third box family lies on a non-dyadic 0.1 grid (exactly touching faces with inexact binary coordinates)."),
         "design_ref": "DESIGN.md 5 C05",
         "note": "Trusted: the list-of-boxes model; canonical form = the public arrays and lists (the class has no other state).",
         "technique": "explicit-state model checking of operation histories on the real code vs reference model, crash/hang isolation in a fork sandbox",
@@ -84,7 +87,8 @@ CHECKS = {
         "text": ("For every collider type with update_pose (x 2 sizes x Margin): all histories of 1..3 update_pose calls over 6 poses "
                  "x {fresh array, item of a pose stack}, with the query battery (14 support queries, aabb, center, first_vertex, "
                  "collider2origin, gjk distance + intersection against two partners) after every step or only at the end; every "
-                 "observation must equal that of a collider constructed directly at the last pose and no query may raise."),
+                 "observation must equal that of a collider constructed directly at the last pose and no query may raise."
+                 " A third schedule makes one support query (8 directions in the collider's own frame) the very first query after the last update; the mesh alphabet contains a mesh whose vertex 0 is referenced by no triangle."),
         "design_ref": "DESIGN.md 5 C14",
         "note": "Differential oracle: fresh construction at the same pose (whose own correctness is C03/C04/C01).",
         "technique": "exhaustive enumeration of update/query histories up to depth 3 on the real code with a fresh-object differential oracle",
@@ -94,7 +98,8 @@ CHECKS = {
                  "size along lattice and generic directions) for all 100 ordered type pairs: deviation bound 2 for the 9 polytope "
                  "pairs, 1 otherwise; gjk.gjk's simplex is handed to epa in all 24 row permutations (<=1 deviation) or one even and "
                  "one odd permutation. Polytope pairs are judged exactly by exhaustive SAT-axis enumeration (|mtv| = depth, residual "
-                 "overlap/gap after translation, both 1e-6*L, success required); smooth pairs by sound one-sided bounds."),
+                 "overlap/gap after translation, both 1e-6*L, success required); smooth pairs by sound one-sided bounds."
+                 " Interpenetrations down to 1e-6 and 1e-7 of the size are part of the placement alphabet."),
         "design_ref": "DESIGN.md 5 C07",
         "note": "Only well-formed hand-overs are judged: all four simplex rows must be support points gjk really evaluated and the origin must be strictly inside (gjk returns uninitialised rows otherwise). KF-C07-epa-capacity-icosphere is matched by class.",
         "technique": "bounded-exhaustive enumeration of overlapping scenes x simplex windings on the real gjk+epa vs exhaustive SAT-axis reference",
@@ -124,7 +129,8 @@ CHECKS = {
                  "per state ~300 points constructed from boundary features (directions incl. the shape's own axes: apex, rim, corner, "
                  "face centre) moved along the normal by -s..-2tol and +2tol..+s; each point is classified exactly by the reference "
                  "model (inscribed ball >= tol => must be True, distance >= tol => must be False), evaluated as a batch and as "
-                 "singletons, and cross-checked with point_to_disk/box/ellipsoid/cylinder and the collider support functions."),
+                 "singletons, and cross-checked with point_to_disk/box/ellipsoid/cylinder and the collider support functions."
+                 " Extra sizes: ellipsoid with radii equal up to 1e-5 relative, cylinder with radius = length/2; convex-mesh predicate also on the triangles produced by the library's own make_convex_mesh (origin outside the hull, unreferenced interior vertex)."),
         "design_ref": "DESIGN.md 5 C13",
         "note": "Disk (zero thickness): 'inside' is only asserted for points exactly in the plane (axis-aligned normals). Points closer than tol to the boundary are not judged.",
         "technique": "bounded-exhaustive enumeration of shape lattice x constructed boundary-offset points on the real predicates vs exact reference classification",
@@ -168,7 +174,8 @@ CHECKS = {
                  "equal sides exactly and perturbed by 1e-15..1e-9). Per mesh: every tetrahedron volume > 0 (clearly non-degenerate away "
                  "from class boundaries), sum of volumes = convex-hull volume (1e-9), no repeated/duplicate elements, all vertices used, "
                  "vertices inside the analytic shape, boundary potentials 0, medial potentials = inradius and at that depth, box/cube exact; "
-                 "volume/AABB/centre-of-mass helpers = direct computation; RigidBody.make_* = factory + pose."),
+                 "volume/AABB/centre-of-mass helpers = direct computation; RigidBody.make_* = factory + pose."
+                 " Conforming tiling: every triangular face belongs to two tetrahedra, or to one and then lies on the hull boundary."),
         "design_ref": "DESIGN.md 5 C17",
         "note": "Trusted: scipy ConvexHull volume. Orientation of the tetrahedra is not constrained by the statement (sphere/ellipsoid/cube are wound negatively; recorded in the evidence).",
         "technique": "exhaustive enumeration of factory parameter lattices on the real code vs determinant/hull-volume/analytic-shape reference",
